@@ -104,6 +104,14 @@ def gate_like_scenarios():
                 f = {(l,): (-1 if b else 1) for l, b in zip((z, x, y), bits)}
                 out.append({"spin": False, "labels": [z, x, y], "f": f, "extra": 1, "fork": None,
                             "steps": [{"mode": "cmp", "P": {k: scale * v for k, v in P.items()}, "rel": "eq", "lt": True}]})
+    # objectives with a large negative constant (whatever a solver derives from the coefficients must include it)
+    for const in (-3, -10):
+        for P, rel in (({("z",): 1, ("x",): 1, (): -1}, "le"), ({("z",): 1, ("x",): 1, ("y",): 1, (): -1}, "le"), ({("z",): 1, ("x",): -1}, "eq")):
+            for sgn in (-1, 1):
+                out.append({"spin": False, "labels": ["z", "x", "y"], "f": {("z",): sgn, ("x",): sgn, ("y",): sgn, (): const}, "extra": 1,
+                            "fork": None, "steps": [{"mode": "cmp", "P": dict(P), "rel": rel, "lt": True}]})
+                out.append({"spin": True, "labels": ["z", "x", "y"], "f": {("z",): sgn, ("x", "y"): sgn, (): const}, "extra": 2,
+                            "fork": None, "steps": [{"mode": "cmp", "P": {("z",): 1, ("x",): 1}, "rel": "le", "lt": True}]})
     # at most one of n variables, with fractional weights and an objective that would rather set them all
     for n in (2, 3):
         for cq in (0.25, 0.5, 1):
